@@ -106,6 +106,11 @@ class ScopeContext:
                     exc_tb=exc_tb,
                 )
 
+        except BaseException as exc:
+            # disposing failed or was cancelled - remaining steps have to know, tasks need to be cancelled
+            exc_type, exc_val, exc_tb = type(exc), exc, exc.__traceback__
+            raise
+
         finally:
             try:
                 await self._task_group_context.__aexit__(
